@@ -10,6 +10,16 @@ Theorem C20_inspect_no_raise :
 Proof. exact inspect_no_raise. Qed.
 Print Assumptions C20_inspect_no_raise.
 
+(* ... including the evaluation of self.stories that RunningOrder.inspect() performs: with the
+   timing data of the roCreate's own stories parseable (ro_stories_err = None) it does not raise
+   either; inspect_o is what the command-line model uses *)
+Theorem C20_inspect_no_raise_with_stories :
+  forall (o : oracles) (k : mclass) (b : xml),
+  inspect_ok k b = true -> (k = RunningOrder -> ro_stories_err o b = None) ->
+  exists ls, inspect_o o k b = inr ls.
+Proof. exact inspect_o_no_raise. Qed.
+Print Assumptions C20_inspect_no_raise_with_stories.
+
 (* ... and mentions every source the message names (each printed line for a source ends with
    that source's ID; a blank ID is printed as None) *)
 Theorem C20_inspect_mentions_sources :
